@@ -97,22 +97,47 @@ def make_exc(name):
 
 
 class debug_logging:
-    """`with debug_logging(on):` — run as a host that configured logging at DEBUG would (every logging.debug / isEnabledFor branch
-    live, records to a NullHandler); state restored afterwards."""
+    """`with debug_logging(mode):` — run as a host that configured logging at DEBUG would: every logging.debug / isEnabledFor
+    branch live.  mode True / "null": records go to a NullHandler; mode "format": to a plain `logging.Handler` whose `emit`
+    formats the record (`self.format(record)`), as a host's own handler does — a `%`-style argument mismatch or a failing
+    `__str__` / `__repr__` of a logged argument then surfaces at the logging call.  State restored afterwards."""
 
     def __init__(self, on):
-        self.on = bool(on)
-        self.restore = None
+        self.mode = "null" if on is True else on
+        self.prev = None
 
     def __enter__(self):
-        if self.on:
-            from .await_h import _debug_logging
-            self.restore = _debug_logging()
+        if self.mode:
+            import logging
+
+            root = logging.getLogger()
+            self.prev = (root.manager.disable, root.level, list(root.handlers))
+            if self.mode == "format":
+                class Formatting(logging.Handler):
+                    def __init__(self):
+                        super().__init__()
+                        self.setFormatter(logging.Formatter("%(levelname)s %(name)s %(message)s"))
+                        self.last = None
+
+                    def emit(self, record):
+                        self.last = self.format(record)
+
+                h = Formatting()
+            else:
+                h = logging.NullHandler()
+            root.handlers[:] = [h]
+            root.setLevel(logging.DEBUG)
+            logging.disable(logging.NOTSET)
         return self
 
     def __exit__(self, *a):
-        if self.restore is not None:
-            self.restore()
+        if self.prev is not None:
+            import logging
+
+            root = logging.getLogger()
+            logging.disable(self.prev[0])
+            root.setLevel(self.prev[1])
+            root.handlers[:] = self.prev[2]
         return False
 
 
@@ -123,13 +148,14 @@ def assign_debug(cases, keyfn, share=3, ctx=None, name=""):
 
     seen = set()
     for c in cases:
-        if int(sha(c), 16) % share == 0:
-            c["debug"] = True
+        h = int(sha(c), 16)
+        if h % share == 0:
+            c["debug"] = "format" if (h // share) % 2 else True  # half of them with a handler that formats the records
             seen.add(keyfn(c))
     for c in cases:
         k = keyfn(c)
         if k not in seen:
-            c["debug"] = True
+            c["debug"] = "format"
             seen.add(k)
     if ctx is not None:
         ctx.notes.append(f"{name}: {sum(1 for c in cases if c.get('debug'))} of {len(cases)} cases run with the root logger at DEBUG "
@@ -165,8 +191,44 @@ def _new_handler(variant=None):
         h.register_method("tools/list", ok)
         h.register_method("verif/raise", boom)
         h.register_method("protocolVersion", ok)
+        _register_nested(h)
         return h
     raise ValueError(variant)
+
+
+def _register_nested(h):
+    """A registered method that calls back into the SAME handler: it awaits `handle_message` for the initialize request found
+    in its params (directly, not in a new task), keeps what came back in `h._verif_nested`, and then returns or raises."""
+    from chuk_mcp.protocol.messages.json_rpc_message import parse_message
+
+    h._verif_nested = []
+
+    async def nested(message, session_id):
+        params = getattr(message, "params", None) or {}
+        inner = parse_message(params["inner"])
+        resp, sid = await h.handle_message(inner, session_id)
+        h._verif_nested.append((resp, sid))
+        if params.get("then") == "raise":
+            raise make_exc(params.get("cls", "RuntimeError"))
+        return h.create_response(getattr(message, "id", None), {"ok": True}), None
+
+    h.register_method("verif/nested", nested)
+
+
+class _FailingDump:
+    """serverInfo / capabilities object whose model_dump raises for the first `times` calls (a user subclass with a bug)"""
+
+    def __init__(self, inner, times, cls_name):
+        self._inner, self._left, self._cls = inner, times, cls_name
+
+    def model_dump(self, *a, **k):
+        if self._left > 0:
+            self._left -= 1
+            raise make_exc(self._cls)
+        return self._inner.model_dump(*a, **k)
+
+    def __getattr__(self, name):
+        return getattr(self._inner, name)
 
 
 def _faulty_session_manager(handler, cls_name, times):
@@ -362,9 +424,29 @@ def run_server_seq(cases):
         "tools-list": {"jsonrpc": "2.0", "id": "between-tools", "method": "tools/list"},
     }
 
+    clock = {"t": 1_700_000_000.0}
+
+    class _Clock:
+        @staticmethod
+        def time():
+            clock["t"] += 0.001
+            return clock["t"]
+
     async def one_case(c):
-        with debug_logging(c.get("debug")):
-            return await one_case_(c)
+        import random
+        from chuk_mcp.server.session import memory as _mem
+
+        state = random.getstate()
+        real_time = _mem.time
+        uses_clock = any(b.startswith("clock") for st in c["steps"] for b in (st.get("between") or []))
+        if uses_clock:
+            _mem.time = _Clock  # the seam of the session store's clock
+        try:
+            with debug_logging(c.get("debug")):
+                return await one_case_(c)
+        finally:
+            _mem.time = real_time
+            random.setstate(state)
 
     async def one_case_(c):
         # "handlers": n -> n handlers alive at once; a step's "h" picks one (default 0); every handler sees the SAME message ids
@@ -372,6 +454,13 @@ def run_server_seq(cases):
         if c.get("store_raises"):
             for h_ in handlers:
                 _faulty_session_manager(h_, c["store_raises"]["cls"], c["store_raises"]["times"])
+        if c.get("dump_raises"):  # the session is created, then building the result fails (between two state updates)
+            for h_ in handlers:
+                h_.server_info = _FailingDump(h_.server_info, c["dump_raises"]["times"], c["dump_raises"]["cls"])
+        if any(st.get("nested") for st in c["steps"]):
+            for h_ in handlers:
+                if not hasattr(h_, "_verif_nested"):
+                    _register_nested(h_)
         handler = handlers[0]
         sm = handler.session_manager
         per_handler_sids = [[] for _ in handlers]
@@ -392,7 +481,7 @@ def run_server_seq(cases):
                     tg.start_soon(run, i)
             for (_m, resp, sid, err) in results:
                 steps.append(dict(err) if err else {"carried": None})
-                held.append((resp, sid, None, err, handler))
+                held.append((resp, sid, None, err, handler, None))
         else:
             for i, st in enumerate(c["steps"]):
                 hi = int(st.get("h") or 0)
@@ -420,6 +509,13 @@ def run_server_seq(cases):
                 elif carry == "other-handler" and any(per_handler_sids[j] for j in range(len(handlers)) if j != hi):
                     sid_in = next(per_handler_sids[j][-1] for j in range(len(handlers)) if j != hi and per_handler_sids[j])
                 for b in st.get("between") or (["ping"] if sid_in else []):
+                    if b.startswith("reseed"):  # something in the server process re-seeds the global generator (a tool wanting
+                        import random           # reproducible output): random.seed(k)
+                        random.seed(int(b.split(":")[1]) if ":" in b else 0)
+                        continue
+                    if b.startswith("clock"):  # the wall clock jumps (hours idle, or set back) between two messages
+                        clock["t"] += float(b.split(":")[1])
+                        continue
                     try:
                         await handler.handle_message(parse_message(between_msgs[b]), sid_in)
                     except Exception:
@@ -434,7 +530,20 @@ def run_server_seq(cases):
                     except Exception:
                         pass
                 last_msg = d
-                _m, resp, sid, err = await _call_handler(handler, d, session_id=sid_in)
+                if st.get("nested"):
+                    # the initialize arrives through a registered method that calls handle_message on the same handler re-entrantly
+                    inner = init_request_dict(st["req"], msg_id=f"init-{i}")
+                    outer = {"jsonrpc": "2.0", "id": f"outer-{i}", "method": "verif/nested",
+                             "params": {"inner": inner, "then": st["nested"], "cls": st.get("cls", "RuntimeError")}}
+                    n0 = len(handler._verif_nested)
+                    _m, oresp, _osid, err = await _call_handler(handler, outer, session_id=sid_in)
+                    if len(handler._verif_nested) > n0:
+                        resp, sid = handler._verif_nested[-1]
+                        err = None
+                    else:
+                        resp, sid, err = None, None, (err or {"kind": "nested-not-reached"})
+                else:
+                    _m, resp, sid, err = await _call_handler(handler, d, session_id=sid_in)
                 o = dict(err) if err else {}
                 sess_obj = None
                 if not err and read_now:
@@ -443,6 +552,12 @@ def run_server_seq(cases):
                     o["has_session"] = sess_obj is not None
                     if sess_obj is not None:
                         o["session"] = _json_safe(sess_obj.protocol_version)
+                if st.get("mutate") and not err and resp is not None and isinstance(getattr(resp, "result", None), dict):
+                    o["answered_before_rewrite"] = _read_answer(resp)[0].get("answered")
+                    resp.result["_meta"] = {"seen-by": "middleware"}
+                    resp.result["protocolVersion"] = "1999-01-01"  # the consumer's own copy of the answer, rewritten in place
+                    resp.result.setdefault("capabilities", {})["rewritten"] = True
+                    o["mutated_by_consumer"] = True
                 o["carried"] = carry if sid_in is not None else None
                 o["h"] = hi
                 o["new_sessions"] = sm.get_session_count() - before
@@ -450,13 +565,16 @@ def run_server_seq(cases):
                 if sid is not None:
                     sids.append(sid)
                 steps.append(o)
-                held.append((resp, sid, sess_obj, err, handler))
+                held.append((resp, sid, sess_obj, err, handler, sid_in))
         # ... and only now, after the whole sequence, every response is serialised (again) and every session looked up (again)
-        all_sids = [(id(h[4]), h[1]) for h in held]
-        for i, (o, (resp, sid, sess_obj, err, handler)) in enumerate(zip(steps, held)):
+        # (handler, id returned, id the request carried): a later request that CARRIED this id and got it back re-initialised the session
+        all_sids = [(id(h[4]), h[1], h[5]) for h in held]
+        for i, (o, (resp, sid, sess_obj, err, handler, _sid_in)) in enumerate(zip(steps, held)):
             if err:
                 continue
             late, _ = _read_answer(resp)
+            if o.get("mutated_by_consumer"):
+                late["answered"] = o.get("answered_before_rewrite")  # what the consumer did to its own response object is its business
             s_now = _read_session(handler, sid)
             late["has_session"] = s_now is not None
             if s_now is not None:
@@ -464,7 +582,9 @@ def run_server_seq(cases):
             if sess_obj is not None:
                 late["session_object"] = _json_safe(sess_obj.protocol_version)  # the record handed out right after the step
             # the session of this step was handed out again by a later step (re-initialisation of one session)
-            late["sid_reissued"] = sid is not None and (id(handler), sid) in all_sids[i + 1:]
+            late["sid_reissued"] = sid is not None and (id(handler), sid, sid) in all_sids[i + 1:]
+            if sid is not None and not late["sid_reissued"] and any(x[0] == id(handler) and x[1] == sid for x in all_sids[i + 1:]):
+                late["sid_handed_out_again"] = True  # a LATER request that did not carry it was given the very same session id
             o["late"] = late
             if "kind" not in o:  # nothing was read right away: the late reading is the only one
                 for k in ("kind", "code", "has_version", "answered", "has_session", "session"):
@@ -516,6 +636,8 @@ RESULT_VARIANTS = {
     "hostile-members": lambda v: {"protocolVersion": v, "capabilities": CAPS, "serverInfo": {"name": "%s {} {0}\n\u2028'\"\\", "version": "%d"},
                                   "instructions": "%s %d {} {0} %(x)s\r\n\u2028\u2029\u0085"},
     "long-instructions": lambda v: {"protocolVersion": v, "capabilities": CAPS, "serverInfo": SINFO, "instructions": "y" * 100_000},
+    "megabyte": lambda v: {"protocolVersion": v, "capabilities": CAPS, "serverInfo": SINFO, "instructions": "z" * 1_000_000,
+                           "_meta": {"pad": ["é" * 1000] * 300}},
 }
 
 
@@ -524,10 +646,25 @@ def _answer_message(ans, msg_id):
     from chuk_mcp.protocol.messages.json_rpc_message import JSONRPCMessage, parse_message
 
     k = ans["k"]
+    env = ans.get("envelope")  # declared members of the reply around the payload: "error": null next to a result, ...
+
+    def dress(d):
+        if env == "error-null":
+            d = dict(d, error=None)
+        elif env == "result-null":
+            d = dict(d, result=None)
+        elif env == "method-null":
+            d = dict(d, method=None, params=None)
+        elif env == "no-jsonrpc":
+            d = {k_: v_ for k_, v_ in d.items() if k_ != "jsonrpc"}
+        elif env == "id-last":
+            d = dict([(k_, v_) for k_, v_ in d.items() if k_ != "id"] + [("id", d["id"])], extra_member={"x": 1})
+        return d
+
     if k == "version":
         variant = ans.get("extra")
         variant = "extra" if variant is True else (variant or "plain")
-        return parse_message({"jsonrpc": "2.0", "id": msg_id, "result": RESULT_VARIANTS[variant](ans["s"])})
+        return parse_message(dress({"jsonrpc": "2.0", "id": msg_id, "result": RESULT_VARIANTS[variant](ans["s"])}))
     if k == "malformed":
         return parse_message({"jsonrpc": "2.0", "id": msg_id, "result": MALFORMED[ans["shape"]]})
     if k == "rpc":
@@ -538,7 +675,7 @@ def _answer_message(ans, msg_id):
             err["data"] = ans["data"]
         if ans.get("msg") is None:
             return JSONRPCMessage(id=msg_id, error=err)
-        return parse_message({"jsonrpc": "2.0", "id": msg_id, "error": err})
+        return parse_message(dress({"jsonrpc": "2.0", "id": msg_id, "error": err}))
     raise ValueError(k)
 
 
@@ -759,6 +896,8 @@ async def _client_call(loop, st, c, client):
         loop.at(loop.ticks + at, fire)
     if backpressure and isinstance(c.get("take"), int):
         loop.at(loop.ticks + at + c["take"], take)
+    if c.get("self_close") is not None:  # another task of the caller closes the write stream while the send is pending
+        loop.at(loop.ticks + at + c["self_close"], lambda: (not state["done"]) and st.out_send.close())
     kwargs = {}
     if sup_obj is not None:
         kwargs["supported_versions"] = tuple(sup_obj) if c.get("sup_tuple") else sup_obj
@@ -793,6 +932,13 @@ async def _client_call(loop, st, c, client):
             obs["type"] = type(res).__name__
             if c.get("_hold") is not None:
                 c["_hold"].append((obs, res))  # sequences: the result object is looked at again after the later calls
+            if c.get("mutate_result"):  # the consumer rewrites the object it was given
+                try:
+                    res.protocolVersion = "1999-01-01"
+                    res.instructions = "rewritten"
+                    obs["v_rewritten"] = True
+                except Exception:
+                    pass
         except BaseException as ex:  # noqa
             if not isinstance(ex, Exception):
                 raise  # the horizon's cancellation
@@ -860,7 +1006,8 @@ async def _client_seq_case(loop, c):
         for st in sts:
             st.close()
     for o, res in hold:  # what an earlier call returned must not change because of later calls
-        o["late_v"] = _json_safe(getattr(res, "protocolVersion", None))
+        if not o.get("v_rewritten"):
+            o["late_v"] = _json_safe(getattr(res, "protocolVersion", None))
     if n > 1:  # every connection's tracked client at the very end
         final = [_tracked_obs(cl)[0] for cl in clients]
         return {"steps": out, "final_tracked": final}
@@ -1175,3 +1322,91 @@ def run_versionlib(cases):
               raise ValueError(op)
           out.append(o)
     return out
+
+
+# ---------------------------------------------------------------------------------- other backends (worker process)
+_WORKERS = {}
+
+
+def _worker(backend):
+    """A persistent worker process running this harness against the library started under `backend`:
+    "fallback" = MCP_FORCE_FALLBACK=1 (the library without Pydantic)."""
+    import atexit
+    import os
+    import subprocess
+    import sys
+    from . import core
+
+    w = _WORKERS.get(backend)
+    if w is not None and w.poll() is None:
+        return w
+    env = dict(os.environ)
+    env["PYTHONPATH"] = str(core.ROOT / "py") + os.pathsep + env.get("PYTHONPATH", "")
+    env["VERIF_REPO"] = str(core.REPO)
+    if backend == "fallback":
+        env["MCP_FORCE_FALLBACK"] = "1"
+    else:
+        raise ValueError(backend)
+    w = subprocess.Popen([sys.executable, "-m", "verifpy.version_worker"], stdin=subprocess.PIPE, stdout=subprocess.PIPE,
+                         stderr=subprocess.DEVNULL, text=True, env=env, cwd=str(core.ROOT))
+    _WORKERS[backend] = w
+
+    def _stop(w=w):
+        try:
+            w.stdin.close()
+            w.wait(timeout=3)
+        except Exception:
+            w.kill()
+            w.wait()
+        finally:
+            try:
+                w.stdout.close()
+            except Exception:
+                pass
+
+    atexit.register(_stop)
+    w.stdin.write(json.dumps({"fn": "info"}) + "\n")
+    w.stdin.flush()
+    info = json.loads(w.stdout.readline()).get("info") or {}
+    if backend == "fallback" and info.get("pydantic") is not False:
+        raise RuntimeError(f"worker for backend {backend!r} did not come up without Pydantic: {info}")
+    return w
+
+
+def run_in_worker(backend, fn_name, cases):
+    w = _worker(backend)
+    w.stdin.write(json.dumps({"fn": fn_name, "cases": cases}) + "\n")
+    w.stdin.flush()
+    line = w.stdout.readline()
+    if not line:
+        raise RuntimeError(f"worker for backend {backend!r} died")
+    ans = json.loads(line)
+    if "error" in ans:
+        raise RuntimeError("worker: " + ans["error"])
+    return ans["obs"]
+
+
+def run_split(fn_name, cases):
+    """Run `fn_name` in-process for the cases without a "backend" member and in the worker of that backend for the others; the
+    observations come back in the order of the cases."""
+    here = [c for c in cases if not c.get("backend")]
+    fn = globals()[fn_name]
+    by_backend = {}
+    for c in cases:
+        if c.get("backend"):
+            by_backend.setdefault(c["backend"], []).append(c)
+    for b, cs in by_backend.items():  # the workers start on their share while this process does its own
+        w = _worker(b)
+        w.stdin.write(json.dumps({"fn": fn_name, "cases": cs}) + "\n")
+        w.stdin.flush()
+    obs_here = iter(fn(here) if here else [])
+    obs_there = {}
+    for b in by_backend:
+        line = _WORKERS[b].stdout.readline()
+        if not line:
+            raise RuntimeError(f"worker for backend {b!r} died")
+        ans = json.loads(line)
+        if "error" in ans:
+            raise RuntimeError("worker: " + ans["error"])
+        obs_there[b] = iter(ans["obs"])
+    return [next(obs_there[c["backend"]]) if c.get("backend") else next(obs_here) for c in cases]
